@@ -1968,6 +1968,15 @@ class subarray : public const_subarray<T, D, ElementPtr, Layout> {
 
 	using const_subarray<T, D, ElementPtr, Layout>::const_subarray;
 
+ private:
+	struct no_iterator_ {}; struct no_const_iterator_ {};  // 0-dimensional views have no iterators
+	using iterator_or_none_       = std::conditional_t<(D > 0), array_iterator<T, D, ElementPtr      >, no_iterator_      >;
+	using const_iterator_or_none_ = std::conditional_t<(D > 0), array_iterator<T, D, ElementPtr, true>, no_const_iterator_>;
+
+ public:
+	// a mutable view is rebuilt from mutable iterators only (the inherited constructor takes read-only iterators)
+	subarray(iterator_or_none_ first, iterator_or_none_ last) : const_subarray<T, D, ElementPtr, Layout>(first, last) {}
+	subarray(const_iterator_or_none_ first, const_iterator_or_none_ last) = delete;
 
 	using const_subarray<T, D, ElementPtr, Layout>::begin;
 	constexpr auto begin() && { return this->begin_aux_(); }
